@@ -23,7 +23,9 @@ NICKS = ["Axi", " Axi ", "A B", "0123456789abcdef", "", "   ", "x",
          # interior runs of blanks / a tab (the nickname is free text)
          "Pen  Plotter", "Lab\tUnit 3", " Rm  12  N ",
          # a full-length (16 character) name behind leading / trailing blanks
-         "  0123456789abcdef", "\t NextDraw 8511-AB ", "   0123456789abcde  "]
+         "  0123456789abcdef", "\t NextDraw 8511-AB ", "   0123456789abcde  ",
+         # names that contain the letters of the firmware's error marker (but not "Err:")
+         "Sherry", "BERRY-2", "error", "Err"]
 
 
 def clamp(res):
@@ -367,7 +369,7 @@ def run(ctx):
                 "model RAM after every step; motors: all 20 board motor states (installed directly and reached via "
                 "library calls) x (r1,r2) in -1..7 squared, then depth-2 chains and all depth-3 "
                 "(thorough: depth-4 over 6) chains over 16 requests on one object; nicknames: "
-                "23 x 23 prior/written (incl. names starting with the reply header characters); two "
+                "27 x 27 prior/written (incl. names starting with the reply header characters); two "
                 "objects on two boards used in turn: all histories of 3 (thorough 4) steps over "
                 "2 x 8 operations that touch both, each board and each object's read-back "
                 "compared with what went through that object; non-trivial = negative or >= 2^24 values, overlapping "
